@@ -8,6 +8,8 @@ NEXT Next
 VIEW view
 INVARIANT CountersExclusive
 INVARIANT FailRunPublished
+INVARIANT TrigHealthyClosed
+INVARIANT TrigOpenOnlyAfterUnhealthy
 PROPERTY FlipsOnlyAtThresholds
 CONSTRAINT Bound
 CHECK_DEADLOCK FALSE
